@@ -527,7 +527,7 @@ class Interp(seq_detached.DetachedMixin, S.SeqRun):
         base = 'r_coll %s#%d.%s contains #%d' % (mo.ent, mo.mid, sa.name, it)
 
         def contains(tag):
-            if self.knobs.get('hook_mode') in ('modify', 'create', 'link'):
+            if self.knobs.get('hook_mode') in ('modify', 'create', 'link', 'after_edit'):
                 self.op_flush()
             h = self.handle_or_poison(mo.mid)
             ih = self.handle_or_poison(it)
@@ -993,7 +993,7 @@ class Interp(seq_detached.DetachedMixin, S.SeqRun):
         self._probe_coll(mo, sa, c % 6, c)
 
     def _probe_coll(self, mo, sa, k, c, tag=''):
-        if self.knobs.get('hook_mode') in ('modify', 'create', 'link'):
+        if self.knobs.get('hook_mode') in ('modify', 'create', 'link', 'after_edit'):
             # hooks that edit data run inside the auto-flush a read may trigger: let that flush happen first, the
             # expected answer is computed from the model afterwards
             self.op_flush()
@@ -1353,7 +1353,7 @@ class Interp(seq_detached.DetachedMixin, S.SeqRun):
         return True
 
     def dispatch(self, name, a, b, c):
-        if name.startswith('r_') and self.knobs.get('hook_mode') in ('modify', 'create', 'link'):
+        if name.startswith('r_') and self.knobs.get('hook_mode') in ('modify', 'create', 'link', 'after_edit'):
             # hooks that edit data run inside the auto-flush a read may trigger; the expected answer is
             # computed from the model before the read, so let the (always legal) flush happen first
             self.op_flush()
